@@ -212,7 +212,10 @@ pub fn run_part<S: System>(ctx: &Ctx, rep: &mut Report, part: &Part<S>) -> Vec<(
         // (up to three equal shares, so that one large configuration is not cut short
         // while small ones leave their time unused)
         let n_left = (part.cfgs.len() - ci) as f64;
-        let share = left.mul_f64((3.0 / n_left).min(1.0));
+        // (thorough parts run into their cap more often: a smaller multiple keeps the last
+        // configurations of a part from being starved)
+        let mult = if ctx.tier == Tier::Thorough { 1.5 } else { 3.0 };
+        let share = left.mul_f64((mult / n_left).min(1.0));
         b.caps = Caps {
             deadline: Some(now + share),
             max_states: 60_000_000,
